@@ -289,7 +289,7 @@ Proof. vm_compute. repeat split; reflexivity. Qed.
    Stage 3: NpyWriter / np.load at the byte level, unsorted spike vectors, checker completeness,
    error exits of the look-up
    --------------------------------------------------------------------------------------------------- *)
-From PV Require Import C03.ModelNpy C03.Proofs4 C03.Proofs5.
+From PV Require Import C03.ModelNpy C03.Proofs4 C03.Proofs5 C03.Proofs6 C03.Link.
 From Coq Require Import Permutation.
 
 (* NpyWriter + np.load, bytes.  Trusted (premises): the header is self-delimiting ([parse_hdr (hdr shape d ++
@@ -462,6 +462,31 @@ Theorem C03_route_model_total : forall (A : Type) (zero : A) (scale : A -> A) (c
 Proof. exact (@route_total). Qed.
 Print Assumptions C03_route_model_total.
 
+(* totality of _extract_waveform on a spike inside the recording: it fails exactly when some channel is not a
+   valid NumPy column index (outside [-c, c): IndexError); the slice, the two paddings and the final shape
+   assertion never fail, for any window length >= 1 and any position of the spike.  Channels in [-c, -2] are
+   valid indices (they wrap) but outside the property's channel lists: the result then only has the right
+   number of rows. *)
+Theorem C03_extract_total : forall (A : Type) (zero : A) (c : Z) (data : list (list A)) (s n : Z) (chans : list Z),
+  rect c data -> 1 <= c -> 0 <= s < zlen data -> 1 <= n ->
+  (Forall (fun ch => - c <= ch < c) chans ->
+     exists w, extract zero data s n chans = Some w /\ zlen w = n) /\
+  (Exists (fun ch => ~ (- c <= ch < c)) chans -> extract zero data s n chans = None).
+Proof. exact (@extract_total). Qed.
+Print Assumptions C03_extract_total.
+
+(* link to C01 (reader indexing): _extract_waveform on a reader over ANY number of files -- the rows taken by
+   C01's line-by-line model of reader[max(0, t0):t1] (a stop beyond the end is clipped: C01_slice_clipped) -- is
+   [extract] on the concatenation, hence the zero-padded window of the concatenated recording.  This turns the
+   item "multi-file readers return slices of the concatenation", trusted in stages 1-2, into a theorem. *)
+Theorem C03_extract_reader : forall (A : Type) (zero : A) (c : Z) (parts : list (list (list A))) (s n : Z)
+    (chans : list Z),
+  rect c (concat parts) -> 1 <= c -> chans_ok c chans -> 0 <= s < zlen (concat parts) -> 1 <= n ->
+  extract_reader zero parts s n chans = extract zero (concat parts) s n chans /\
+  extract_reader zero parts s n chans = Some (window zero (concat parts) s n chans).
+Proof. exact (@extract_reader_both). Qed.
+Print Assumptions C03_extract_reader.
+
 (* ---- stage 3: non-vacuity ---- *)
 (* the concrete byte layout of ModelNpy.v (lay_*: itemsize 2/4/8; an element = its value followed by zero bytes;
    the header = number of dimensions, the dimensions, a dtype code) meets the premises *)
@@ -524,3 +549,14 @@ Example C03_ex_total :
   option_map (fun st => (gsw_asserts [3] [0] st 0, get_spike_waveforms 0 [3] [0] st 0)) ex_store = Some (false, None) /\
   option_map (fun st => gsw_asserts [3; 7] [0] st 2) ex_store = Some true.
 Proof. vm_compute. repeat split; reflexivity. Qed.
+(* error exits of the extraction: channel 2 of a 2-channel recording, a window length 0; channel -2 wraps *)
+Example C03_ex_extract_total :
+  extract 0 ex_data 1 2 [0; 2] = None /\ extract 0 ex_data 1 0 [0] = None /\
+  extract 0 ex_data 1 2 [-2; 1] = Some [[1; 2]; [11; 12]].
+Proof. vm_compute. repeat split; reflexivity. Qed.
+(* a recording in two files (2 + 1 samples); window 4 around the last sample: crosses the file bound and
+   overflows the end (stop 4 > 3 samples, clipped by the reader) *)
+Example C03_ex_extract_reader :
+  extract_reader 0 [[[1; 2]; [11; 12]]; [[21; 22]]] 2 4 [1; -1] = Some [[2; 0]; [12; 0]; [22; 0]; [0; 0]] /\
+  extract 0 ex_data 2 4 [1; -1] = Some [[2; 0]; [12; 0]; [22; 0]; [0; 0]].
+Proof. vm_compute. split; reflexivity. Qed.
